@@ -234,28 +234,11 @@ fn cal_bytes(f: u32) -> (u8, u8) {
 
 /// Runs one operation on our driver and on the reference (both on `ours` / `theirs` wires).
 /// Returns Err(text) when the operation is not applicable to this chip (skipped).
-fn run126(c: &Case, ours: &Rc<RefCell<Wire126>>, theirs: &Rc<RefCell<Wire126>>) -> Result<(), String> {
+/// One operation on our driver `r` and on the reference `refc` (both keep their state across the
+/// operations of a sequence, as a real driver instance does).
+fn op126<RK: RadioKind>(r: &mut RK, refc: &mut c126::Context<Spi126>, c: &Case, ours: &Rc<RefCell<Wire126>>, theirs: &Rc<RefCell<Wire126>>) -> Result<(), String> {
     let hp = c.chip != "sx1261";
     let stm = c.chip == "stm32wl-hp";
-    let mut refc = c126::Context::new(Spi126(theirs.clone()));
-    macro_rules! ours {
-        (|$r:ident| $body:expr) => {{
-            match c.chip.as_str() {
-                "sx1261" => {
-                    let mut $r = sx126x::Sx126x::new(Spi126(ours.clone()), Iv, sx126x::Config { chip: sx126x::Sx1261, tcxo_ctrl: None, use_dcdc: false, rx_boost: true });
-                    $body
-                }
-                "sx1262" => {
-                    let mut $r = sx126x::Sx126x::new(Spi126(ours.clone()), Iv, sx126x::Config { chip: sx126x::Sx1262, tcxo_ctrl: None, use_dcdc: false, rx_boost: true });
-                    $body
-                }
-                _ => {
-                    let mut $r = sx126x::Sx126x::new(Spi126(ours.clone()), Iv, sx126x::Config { chip: sx126x::Stm32wl { use_high_power_pa: true }, tcxo_ctrl: None, use_dcdc: false, rx_boost: true });
-                    $body
-                }
-            }
-        }};
-    }
     let p = |i: usize| c.p.get(i).copied().unwrap_or(0);
     let ok = |r: Option<Result<(), RadioError>>| -> Result<(), String> {
         match r {
@@ -266,29 +249,29 @@ fn run126(c: &Case, ours: &Rc<RefCell<Wire126>>, theirs: &Rc<RefCell<Wire126>>) 
     match c.op.as_str() {
         "sleep" => {
             refc.set_sleep(if p(0) != 0 { c126::SleepCfg::WarmStart } else { c126::SleepCfg::ColdStart });
-            ours!(|r| ok(drive(r.set_sleep(p(0) != 0, &mut Dly))))
+            { ok(drive(r.set_sleep(p(0) != 0, &mut Dly))) }
         }
         "standby" => {
             refc.set_standby(c126::sx126x_standby_cfgs_e::SX126X_STANDBY_CFG_RC);
-            ours!(|r| ok(drive(r.set_standby())))
+            { ok(drive(r.set_standby())) }
         }
         "freq" => {
             refc.set_rf_freq(p(0) as u32);
-            ours!(|r| ok(drive(r.set_channel(p(0) as u32))))
+            { ok(drive(r.set_channel(p(0) as u32))) }
         }
         "mod" => {
             let (sf, csf, _) = SFS[p(0) as usize];
             let (bw, cbw, _) = BWS[p(1) as usize];
             let (cr, ccr, _) = CRS[p(2) as usize];
-            ours!(|r| {
+            { {
                 let mp = r.create_modulation_params(sf, bw, cr, 868_100_000).map_err(|e| format!("{e:?}"))?;
                 refc.set_lora_mod_params(&c126::sx126x_mod_params_lora_t { sf: csf, bw: cbw, cr: ccr, ldro: mp.low_data_rate_optimize });
                 ok(drive(r.set_modulation_params(&mp)))
-            })
+            } }
         }
         "pkt" => {
             let (sf, _, _) = SFS[p(5) as usize];
-            ours!(|r| {
+            { {
                 let mp = r.create_modulation_params(sf, Bandwidth::_125KHz, CodingRate::_4_5, 868_100_000).map_err(|e| format!("{e:?}"))?;
                 let pp = r.create_packet_params(p(0) as u16, p(1) != 0, p(2) as u8, p(3) != 0, p(4) != 0, &mp).map_err(|e| format!("{e:?}"))?;
                 refc.set_lora_pkt_params(&c126::sx126x_pkt_params_lora_t {
@@ -299,7 +282,7 @@ fn run126(c: &Case, ours: &Rc<RefCell<Wire126>>, theirs: &Rc<RefCell<Wire126>>) 
                     invert_iq_is_on: p(4) != 0,
                 });
                 ok(drive(r.set_packet_params(&pp)))
-            })
+            } }
         }
         "sync" => {
             // the reference reads the two registers and keeps their low nibbles; from the reset
@@ -309,25 +292,34 @@ fn run126(c: &Case, ours: &Rc<RefCell<Wire126>>, theirs: &Rc<RefCell<Wire126>>) 
             ours.borrow_mut().regs.insert(0x0740, 0x14);
             ours.borrow_mut().regs.insert(0x0741, 0x24);
             let legacy = p(0) as u8;
+            let start = theirs.borrow().ops.len();
             refc.set_lora_sync_word(legacy);
             let word = u16::from_be_bytes([(legacy & 0xF0) | 0x04, ((legacy & 0x0F) << 4) | 0x04]);
-            let r = ours!(|r| ok(drive(r.set_lora_sync_word(word))));
+            let r = { ok(drive(r.set_lora_sync_word(word))) };
             // only writes are comparable (the reference's read has no counterpart)
-            theirs.borrow_mut().ops.retain(|o| o.0.first() != Some(&0x1D));
+            {
+                let mut g = theirs.borrow_mut();
+                let mut i = 0;
+                g.ops.retain(|o| {
+                    let keep = i < start || !o.0.starts_with(&[0x1D, 0x07, 0x40]);
+                    i += 1;
+                    keep
+                });
+            }
             r
         }
         "base" => {
             refc.set_buffer_base_address(p(0) as u8, p(1) as u8);
-            ours!(|r| ok(drive(r.set_tx_rx_buffer_base_address(p(0) as usize, p(1) as usize))))
+            { ok(drive(r.set_tx_rx_buffer_base_address(p(0) as usize, p(1) as usize))) }
         }
         "payload" => {
             let data: Vec<u8> = (0..p(0) as usize).map(|i| (i as u8).wrapping_mul(p(1) as u8 | 1).wrapping_add(p(1) as u8)).collect();
             refc.write_buffer(0, &data);
-            ours!(|r| ok(drive(r.set_payload(&data))))
+            { ok(drive(r.set_payload(&data))) }
         }
         "tx" => {
             refc.set_tx(0);
-            ours!(|r| ok(drive(r.do_tx())))
+            { ok(drive(r.do_tx())) }
         }
         "irq" => {
             let (mode, mask): (RadioMode, u16) = match p(0) {
@@ -338,11 +330,11 @@ fn run126(c: &Case, ours: &Rc<RefCell<Wire126>>, theirs: &Rc<RefCell<Wire126>>) 
                 _ => (RadioMode::ChannelActivityDetection, 0x0180),
             };
             refc.set_dio_irq_params(mask, mask, 0, 0);
-            ours!(|r| ok(drive(r.set_irq_params(Some(mode)))))
+            { ok(drive(r.set_irq_params(Some(mode)))) }
         }
         "clrirq" => {
             refc.clear_irq_status(0xFFFF);
-            ours!(|r| ok(drive(r.clear_irq_status())))
+            { ok(drive(r.clear_irq_status())) }
         }
         "rx" => {
             // p0: -1 continuous, otherwise symbol timeout
@@ -351,7 +343,7 @@ fn run126(c: &Case, ours: &Rc<RefCell<Wire126>>, theirs: &Rc<RefCell<Wire126>>) 
             refc.set_lora_symb_nb_timeout(symbs);
             refc.cfg_rx_boosted(true);
             refc.set_rx_with_timeout_in_rtc_step(rtc);
-            ours!(|r| ok(drive(r.do_rx(mode))))
+            { ok(drive(r.do_rx(mode))) }
         }
         "cad" => {
             let (sf, _, _) = SFS[p(0) as usize];
@@ -364,19 +356,19 @@ fn run126(c: &Case, ours: &Rc<RefCell<Wire126>>, theirs: &Rc<RefCell<Wire126>>) 
                 cad_timeout: 0,
             });
             refc.set_cad();
-            ours!(|r| {
+            { {
                 let mp = r.create_modulation_params(sf, Bandwidth::_125KHz, CodingRate::_4_5, 868_100_000).map_err(|e| format!("{e:?}"))?;
                 ok(drive(r.do_cad(&mp)))
-            })
+            } }
         }
         "calimg" => {
             let (f1, f2) = cal_bytes(p(0) as u32);
             refc.cal_img(f1, f2);
-            ours!(|r| ok(drive(r.calibrate_image(p(0) as u32))))
+            { ok(drive(r.calibrate_image(p(0) as u32))) }
         }
         "txcw" => {
             refc.set_tx_cw();
-            ours!(|r| ok(drive(r.set_tx_continuous_wave_mode())))
+            { ok(drive(r.set_tx_continuous_wave_mode())) }
         }
         "power" => {
             let (duty, hpmax, param) = pa_row(hp, stm, p(0) as i32);
@@ -385,26 +377,26 @@ fn run126(c: &Case, ours: &Rc<RefCell<Wire126>>, theirs: &Rc<RefCell<Wire126>>) 
             }
             refc.set_pa_cfg(&c126::sx126x_pa_cfg_params_t { pa_duty_cycle: duty, hp_max: hpmax, device_sel: if hp { 0 } else { 1 }, pa_lut: 0x01 });
             refc.set_tx_params(param, if p(1) != 0 { c126::sx126x_ramp_time_e::SX126X_RAMP_40_US } else { c126::sx126x_ramp_time_e::SX126X_RAMP_200_US });
-            ours!(|r| ok(drive(r.set_tx_power_and_ramp_time(p(0) as i32, None, p(1) != 0))))
+            { ok(drive(r.set_tx_power_and_ramp_time(p(0) as i32, None, p(1) != 0))) }
         }
         "rdstatus" => {
             // status-type reads: packet status, instantaneous RSSI, IRQ status, wake-up GetStatus
             match p(0) {
                 0 => {
                     refc.get_lora_pkt_status();
-                    ours!(|r| drive(r.get_rx_packet_status()).map(|_| ()).ok_or("pending".to_string()))
+                    { drive(r.get_rx_packet_status()).map(|_| ()).ok_or("pending".to_string()) }
                 }
                 1 => {
                     refc.get_rssi_inst();
-                    ours!(|r| drive(r.get_rssi()).map(|_| ()).ok_or("pending".to_string()))
+                    { drive(r.get_rssi()).map(|_| ()).ok_or("pending".to_string()) }
                 }
                 2 => {
                     refc.get_irq_status();
-                    ours!(|r| drive(r.get_irq_state(RadioMode::Transmit, None)).map(|_| ()).ok_or("pending".to_string()))
+                    { drive(r.get_irq_state(RadioMode::Transmit, None)).map(|_| ()).ok_or("pending".to_string()) }
                 }
                 _ => {
                     refc.get_status();
-                    ours!(|r| ok(drive(r.ensure_ready(RadioMode::Sleep))))
+                    { ok(drive(r.ensure_ready(RadioMode::Sleep))) }
                 }
             }
         }
@@ -412,14 +404,40 @@ fn run126(c: &Case, ours: &Rc<RefCell<Wire126>>, theirs: &Rc<RefCell<Wire126>>) 
     }
 }
 
+
+/// Runs a sequence of operations on ONE instance of our driver and one of the reference.
+fn run126(seq: &[&Case], ours: &Rc<RefCell<Wire126>>, theirs: &Rc<RefCell<Wire126>>) -> Result<(), String> {
+    let chip = seq.last().map(|c| c.chip.clone()).unwrap_or_default();
+    let mut refc = c126::Context::new(Spi126(theirs.clone()));
+    macro_rules! go {
+        ($radio:expr) => {{
+            let mut r = $radio;
+            let n = seq.len();
+            for (i, c) in seq.iter().enumerate() {
+                let res = op126(&mut r, &mut refc, c, ours, theirs);
+                // a prior operation the driver rejects is simply not part of the sequence
+                if i + 1 == n {
+                    return res;
+                }
+            }
+            Ok(())
+        }};
+    }
+    match chip.as_str() {
+        "sx1261" => go!(sx126x::Sx126x::new(Spi126(ours.clone()), Iv, sx126x::Config { chip: sx126x::Sx1261, tcxo_ctrl: None, use_dcdc: false, rx_boost: true })),
+        "sx1262" => go!(sx126x::Sx126x::new(Spi126(ours.clone()), Iv, sx126x::Config { chip: sx126x::Sx1262, tcxo_ctrl: None, use_dcdc: false, rx_boost: true })),
+        _ => go!(sx126x::Sx126x::new(Spi126(ours.clone()), Iv, sx126x::Config { chip: sx126x::Stm32wl { use_high_power_pa: true }, tcxo_ctrl: None, use_dcdc: false, rx_boost: true })),
+    }
+}
+
 fn eval126(c: &Case) -> Vec<(String, String)> {
     let ours = wire(c.prior);
     let theirs = wire(c.prior);
     let r = catch(|| {
-        if let Some(pre) = &c.pre {
-            let _ = run126(pre, &ours, &theirs);
+        match &c.pre {
+            Some(pre) => run126(&[pre.as_ref(), c], &ours, &theirs),
+            None => run126(&[c], &ours, &theirs),
         }
-        run126(c, &ours, &theirs)
     });
     match r {
         Err(p) => vec![(format!("C13|sx126x|{}|panic|{}", c.op, panic_site(&p)), p)],
@@ -447,7 +465,10 @@ fn eval126(c: &Case) -> Vec<(String, String)> {
 #[derive(Clone)]
 struct Regs127 {
     regs: [u8; 128],
+    /// bytes written to the FIFO port, in order
     fifo: Vec<u8>,
+    /// FIFO data buffer: an access goes to RegFifoAddrPtr, which then increments
+    ram: [u8; 256],
 }
 
 #[derive(Clone)]
@@ -489,7 +510,7 @@ impl Regs127 {
                 regs[*a as usize] = p;
             }
         }
-        Regs127 { regs, fifo: vec![] }
+        Regs127 { regs, fifo: vec![], ram: [0; 256] }
     }
     fn run(&mut self, ops: &mut [Operation<'_, u8>]) {
         let mut w = vec![];
@@ -503,7 +524,11 @@ impl Regs127 {
         if a & 0x80 != 0 {
             for (i, v) in w[1..].iter().enumerate() {
                 if addr == 0 {
-                    self.fifo.push(*v); // the FIFO address does not auto-increment
+                    // the FIFO port: the register address stays, the FIFO pointer advances
+                    self.fifo.push(*v);
+                    let p = self.regs[0x0D];
+                    self.ram[p as usize] = *v;
+                    self.regs[0x0D] = p.wrapping_add(1);
                     continue;
                 }
                 let ad = (addr as usize + i) & 0x7F;
@@ -527,7 +552,13 @@ impl Regs127 {
             for op in ops.iter_mut() {
                 if let Operation::Read(b) = op {
                     for x in b.iter_mut() {
-                        *x = if addr == 0 { 0 } else { self.regs[(addr as usize + i) & 0x7F] };
+                        *x = if addr == 0 {
+                            let p = self.regs[0x0D];
+                            self.regs[0x0D] = p.wrapping_add(1);
+                            self.ram[p as usize]
+                        } else {
+                            self.regs[(addr as usize + i) & 0x7F]
+                        };
                         i += 1;
                     }
                 }
@@ -661,8 +692,11 @@ fn eval127(c: &Case) -> Vec<(String, String)> {
                     crc_is_on: true,
                     invert_iq_is_on: false,
                 });
+                // whatever the FIFO pointer was left at by an earlier operation
+                ours.borrow_mut().regs[0x0D] = c.prior;
+                theirs.borrow_mut().regs[0x0D] = c.prior;
                 refc.write_buffer(0, &data);
-                // FIFO stream, FIFO pointer, payload length
+                // FIFO stream, FIFO pointer, payload length (and below: the data buffer the modem transmits from)
                 compare = Some(vec![(0x0D, 0xFF), (0x22, 0xFF)]);
                 ours!(|r| ok(drive(r.set_payload(&data))))
             }
@@ -703,6 +737,15 @@ fn eval127(c: &Case) -> Vec<(String, String)> {
                     v.push((
                         format!("C13|{fam}|{}|register-{ad:#04x}-differs", c.op),
                         format!("{} {:?} prior {:#x}: register {ad:#04x} (mask {mask:#04x}): ours {:#04x} reference {:#04x}", c.chip, c.p, c.prior, a.regs[ad as usize], b.regs[ad as usize]),
+                    ));
+                }
+            }
+            if c.op == "payload" {
+                let n = p(0) as usize;
+                if a.ram[..n] != b.ram[..n] {
+                    v.push((
+                        format!("C13|{fam}|payload|data-buffer-differs"),
+                        format!("{} {:?} FIFO pointer before {:#x}: bytes at the TX base: ours {} reference {}", c.chip, c.p, c.prior, hex(&a.ram[..n.min(16)]), hex(&b.ram[..n.min(16)])),
                     ));
                 }
             }
@@ -859,13 +902,28 @@ fn main() {
         mk("sx1262", "pkt", vec![8, 0, 32, 1, 0, 2], 0xFB),
         mk("sx1262", "power", vec![22, 1], 0x00),
         mk("sx1262", "power", vec![-9, 0], 0xFF),
+        mk("sx1262", "mod", vec![7, 8, 0], 0x00),
+        mk("sx1262", "sleep", vec![0], 0x00),
+        mk("sx1262", "sleep", vec![1], 0x00),
+        mk("sx1262", "standby", vec![], 0x00),
+        mk("sx1262", "freq", vec![868_100_000], 0x00),
+        mk("sx1262", "sync", vec![0x34], 0x00),
+        mk("sx1262", "rx", vec![10], 0x00),
+        mk("sx1262", "rx", vec![-1], 0x00),
+        mk("sx1262", "cad", vec![2], 0x00),
+        mk("sx1262", "tx", vec![], 0x00),
+        mk("sx1262", "irq", vec![1], 0x00),
+        mk("sx1262", "payload", vec![12, 7], 0x00),
     ];
-    for a in &rmw {
-        for b in &rmw {
-            for &pr in &priors {
-                let mut c = Case { prior: pr, ..b.clone() };
-                c.pre = Some(Box::new(Case { prior: pr, ..a.clone() }));
-                cases.push(c);
+    // (every ordered pair, on one driver instance: state kept inside the driver shows up here)
+    for chip in ["sx1262", "sx1261", "stm32wl-hp"] {
+        for a in &rmw {
+            for b in &rmw {
+                for &pr in if chip == "sx1262" { &priors[..] } else { &priors[..2.min(priors.len())] } {
+                    let mut c = Case { prior: pr, chip: chip.into(), ..b.clone() };
+                    c.pre = Some(Box::new(Case { prior: pr, chip: chip.into(), ..a.clone() }));
+                    cases.push(c);
+                }
             }
         }
     }
@@ -897,7 +955,9 @@ fn main() {
             cases.push(mk(chip, "sync", vec![legacy], 0));
         }
         for len in 0..=255 {
-            cases.push(mk(chip, "payload", vec![len, 5], 0));
+            for pr in [0u8, 1, 0x40, 0x80, 0xFF] {
+                cases.push(mk(chip, "payload", vec![len, 5], pr));
+            }
         }
         for n in if th { (0..=65535).collect::<Vec<i64>>() } else { (0..=1100).chain([65535]).collect() } {
             cases.push(mk(chip, "symbtimeout", vec![n], 0));
